@@ -68,6 +68,7 @@ type shadowWord struct {
 
 type syncObj struct {
 	locked  bool
+	wpend   bool // RWMutex: a writer holds the writer mutex (announced, waiting for readers, or holding the lock)
 	readers int
 	count   int // waitgroup counter
 	done    bool
@@ -686,7 +687,15 @@ func init() {
 	ext("(*sync.RWMutex).Lock", func(fr *frame, args []value) value {
 		s := fr.i.sch
 		o := s.obj(ptr(args))
+		// sync.RWMutex prefers writers: a blocked Lock excludes new readers. Lock is therefore two
+		// steps: announce (take the writer mutex), then wait for the active readers to leave. A
+		// goroutine that read-locks again while a writer is announced deadlocks, as it does in Go.
+		if s.nthreads > 1 {
+			s.yield(func() bool { return !o.wpend }, "RWMutex.Lock(announce)", o)
+			o.wpend = true
+		}
 		s.yield(func() bool { return !o.locked && o.readers == 0 }, "RWMutex.Lock", o)
+		o.wpend = true
 		o.locked = true
 		s.acquire(o)
 		s.cur.vc = s.cur.vc.join(o.rvc)
@@ -701,13 +710,14 @@ func init() {
 			s.abortPath("")
 		}
 		o.locked = false
+		o.wpend = false
 		s.release(o)
 		return nil
 	})
 	ext("(*sync.RWMutex).RLock", func(fr *frame, args []value) value {
 		s := fr.i.sch
 		o := s.obj(ptr(args))
-		s.yield(func() bool { return !o.locked }, "RWMutex.RLock", sharedAccess{o})
+		s.yield(func() bool { return !o.locked && !o.wpend }, "RWMutex.RLock", sharedAccess{o})
 		o.readers++
 		s.acquire(o)
 		return nil
